@@ -409,6 +409,120 @@ def _propagate_aliases(tree):
             i += 1
 
 
+_MUTATORS = {"sort", "fill", "append", "extend", "insert", "pop", "remove", "clear", "update", "resize", "put", "itemset", "reverse", "setdefault", "popitem", "add", "discard"}
+
+
+def _propagate_pure_temps(tree):
+    """Normal form for named pure sub-expressions: a local bound exactly once to a call-free expression over stable
+    names (parameters that are never re-bound, locals bound once before it) whose parts nothing in the function writes
+    to, and that is only read after its binding inside the same block, is replaced by that expression at every use
+    (`index = rank - 1; a[:index] = a[1:rank]` and `a[:rank - 1] = a[1:rank]` are then one program to every rule)."""
+    import copy as _copy
+
+    pure_calls = {"lower", "upper", "casefold", "strip"}
+    pure_funcs = {"len", "int", "float", "abs", "bool", "str"}
+    pure_nodes = (ast.Name, ast.Constant, ast.Attribute, ast.Subscript, ast.Slice, ast.BinOp, ast.UnaryOp, ast.Compare, ast.BoolOp, ast.Tuple, ast.Load, ast.operator, ast.unaryop, ast.cmpop, ast.boolop, ast.expr_context)
+
+    for fn in [n for n in ast.walk(tree) if isinstance(n, (ast.FunctionDef, ast.AsyncFunctionDef))]:
+        for _round in range(8):
+            params = {a.arg for a in fn.args.posonlyargs + fn.args.args + fn.args.kwonlyargs} | ({fn.args.vararg.arg} if fn.args.vararg else set()) | ({fn.args.kwarg.arg} if fn.args.kwarg else set())
+            binds, declared = {}, set()
+            nested = [x for x in ast.walk(fn) if isinstance(x, (ast.FunctionDef, ast.AsyncFunctionDef, ast.Lambda, ast.ListComp, ast.SetComp, ast.DictComp, ast.GeneratorExp)) and x is not fn]
+            nested_names = {y.id for x in nested for y in ast.walk(x) if isinstance(y, ast.Name)}
+            for x in ast.walk(fn):
+                if isinstance(x, ast.Name) and not isinstance(x.ctx, ast.Load):
+                    binds[x.id] = binds.get(x.id, 0) + 1
+                elif isinstance(x, (ast.Global, ast.Nonlocal)):
+                    declared |= set(x.names)
+                elif isinstance(x, ast.ExceptHandler) and x.name:
+                    declared.add(x.name)
+                elif isinstance(x, ast.AugAssign) and isinstance(x.target, ast.Name):
+                    binds[x.target.id] = binds.get(x.target.id, 0) + 1
+                elif isinstance(x, (ast.Import, ast.ImportFrom)):
+                    for al in x.names:
+                        declared.add((al.asname or al.name).split(".")[0])
+            # writes into objects: (root name, key text) of every attribute / subscript store and mutator call
+            obj_writes = set()
+            for x in ast.walk(fn):
+                tgt = None
+                if isinstance(x, (ast.Attribute, ast.Subscript)) and not isinstance(x.ctx, ast.Load):
+                    tgt = x
+                elif isinstance(x, ast.AugAssign) and isinstance(x.target, (ast.Attribute, ast.Subscript)):
+                    tgt = x.target
+                elif isinstance(x, ast.Call) and isinstance(x.func, ast.Attribute) and x.func.attr in _MUTATORS:
+                    tgt = x.func.value
+                    r = tgt
+                    while isinstance(r, (ast.Attribute, ast.Subscript)):
+                        r = r.value
+                    if isinstance(r, ast.Name):
+                        obj_writes.add((r.id, "*" + ast.unparse(tgt)))
+                    continue
+                if tgt is not None:
+                    r = tgt
+                    while isinstance(r, (ast.Attribute, ast.Subscript)):
+                        r = r.value
+                    if isinstance(r, ast.Name):
+                        obj_writes.add((r.id, ast.unparse(tgt)))
+            done = False
+            for owner in ast.walk(fn):
+                if isinstance(owner, (ast.FunctionDef, ast.AsyncFunctionDef, ast.Lambda)) and owner is not fn:
+                    continue
+                for fld in ("body", "orelse", "finalbody"):
+                    blk = getattr(owner, fld, None)
+                    if not (isinstance(blk, list) and blk and isinstance(blk[0], ast.stmt)):
+                        continue
+                    for i, st in enumerate(blk):
+                        if not (isinstance(st, ast.Assign) and len(st.targets) == 1 and isinstance(st.targets[0], ast.Name)):
+                            continue
+                        t = st.targets[0].id
+                        E = st.value
+                        if binds.get(t) != 1 or t in params or t in declared or t in nested_names or isinstance(E, (ast.Name, ast.Constant)):
+                            continue
+                        if not all(isinstance(x, pure_nodes) or (isinstance(x, ast.Call) and not x.keywords and ((isinstance(x.func, ast.Attribute) and x.func.attr in pure_calls and not x.args) or (isinstance(x.func, ast.Name) and x.func.id in pure_funcs and len(x.args) == 1))) for x in ast.walk(E)) or len(ast.unparse(E)) > 90:
+                            continue
+                        roots = {x.id for x in ast.walk(E) if isinstance(x, ast.Name)}
+                        if t in roots or any((r in params and binds.get(r, 0) > 0) or (r not in params and r not in ("self", "np", "numpy", "torch", "config", "math") and binds.get(r, 0) > 1) for r in roots):
+                            continue
+                        # nothing writes into a part E reads (same root, overlapping access path)
+                        reads = {ast.unparse(x) for x in ast.walk(E) if isinstance(x, (ast.Attribute, ast.Subscript))} | roots
+                        clash = False
+                        for r, key in obj_writes:
+                            if r in roots:
+                                k = key.lstrip("*")
+                                if key.startswith("*") or any(k == rd or rd.startswith(k) or k.startswith(rd + "[") or k.startswith(rd + ".") for rd in reads if rd != r) or k == r:
+                                    clash = True
+                        if clash:
+                            continue
+                        # locals in E bound once must be bound before this statement in this block chain (lexically)
+                        before = {x.id for s in ast.walk(fn) for x in ([s] if isinstance(s, ast.Name) and not isinstance(s.ctx, ast.Load) and (s.lineno, s.col_offset) < (st.lineno, st.col_offset) else [])}
+                        if any(r not in params and r not in ("self", "np", "numpy", "torch", "config", "math") and binds.get(r, 0) == 1 and r not in before for r in roots):
+                            continue
+                        uses_in = [x for s in blk[i + 1 :] for x in ast.walk(s) if isinstance(x, ast.Name) and x.id == t and isinstance(x.ctx, ast.Load)]
+                        all_uses = [x for x in ast.walk(fn) if isinstance(x, ast.Name) and x.id == t and isinstance(x.ctx, ast.Load)]
+                        if not uses_in or len(uses_in) != len(all_uses) or len(all_uses) > 8:
+                            continue
+
+                        class R(ast.NodeTransformer):
+                            def visit_Name(self, n_):
+                                if n_.id == t and isinstance(n_.ctx, ast.Load):
+                                    return ast.copy_location(_copy.deepcopy(E), n_)
+                                return n_
+
+                        blk[i + 1 :] = [R().visit(s) for s in blk[i + 1 :]]
+                        del blk[i]
+                        if not blk:
+                            blk.append(ast.copy_location(ast.Pass(), st))
+                        done = True
+                        break
+                    if done:
+                        break
+                if done:
+                    break
+            if not done:
+                break
+    ast.fix_missing_locations(tree)
+
+
 def _inline_temps(tree):
     """Normal form for single-use temporaries: `v = e` immediately followed by a simple statement that reads v exactly
     once (v bound once and read once in the whole function, the read not under and/or, a conditional expression, a
@@ -533,6 +647,172 @@ def anchor_names():
     return names
 
 
+def _to_tail_form(stmts):
+    """`if c: ...; return a` followed by REST  ->  `if c: ...; return a  else: REST` (recursively), on a copy: guard
+    clauses become an if / else tree whose returns are all in tail position."""
+    import copy as _copy
+
+    out = []
+    stmts = list(stmts)
+    for i, st in enumerate(stmts):
+        if isinstance(st, ast.If):
+            st = _copy.copy(st)
+            st.body = _to_tail_form(st.body)
+            st.orelse = _to_tail_form(st.orelse) if st.orelse else []
+            ends = st.body and isinstance(st.body[-1], (ast.Return, ast.Raise))
+            if ends and not st.orelse and i + 1 < len(stmts) and any(isinstance(x, ast.Return) for x in ast.walk(st)):
+                st.orelse = _to_tail_form(stmts[i + 1 :])
+                out.append(st)
+                return out
+        out.append(st)
+    return out
+
+
+def _has_fallthrough_leaf(block):
+    if not block:
+        return True
+    last = block[-1]
+    if isinstance(last, (ast.Return, ast.Raise)):
+        return False
+    if isinstance(last, ast.If):
+        return _has_fallthrough_leaf(last.body) or _has_fallthrough_leaf(last.orelse)
+    return True
+
+
+def _returns_in_tail_position(stmts):
+    """No return at all, or every return of the statement list is in tail position: the last statement is a return /
+    raise, or an if / else (both arms present) whose arms end the same way; nothing before the last statement returns."""
+    if not any(isinstance(x, ast.Return) for s in stmts for x in ast.walk(s)):
+        return True
+
+    def tail(block):
+        if not any(isinstance(x, ast.Return) for s in block for x in ast.walk(s)):
+            return True  # falls off the end: an implicit `return None` in tail position
+        if any(isinstance(x, ast.Return) for s in block[:-1] for x in ast.walk(s)):
+            return False
+        last = block[-1]
+        if isinstance(last, (ast.Return, ast.Raise)):
+            return True
+        if isinstance(last, ast.If):
+            return tail(last.body) and tail(last.orelse)
+        return False
+
+    return tail(stmts)
+
+
+def _substitute_call(h, skip, body, rets, st, call, g, nm):
+    """(pre, body, post) statement lists that replace the whole-statement call `st` of helper `h` inside function `g`,
+    or None if the call cannot be substituted (starred arguments, unmatched parameters)."""
+    import copy as _copy
+
+    a = h.args
+    if any(isinstance(x, ast.Starred) for x in call.args) or any(k.arg is None for k in call.keywords):
+        return None
+    params = [x.arg for x in a.args[skip:]] + [x.arg for x in a.kwonlyargs]
+    defaults = dict(zip([x.arg for x in a.args[skip:]][len(a.args[skip:]) - len(a.defaults):], a.defaults))
+    defaults.update({x.arg: d for x, d in zip(a.kwonlyargs, a.kw_defaults) if d is not None})
+    bind = {}
+    pos = [x.arg for x in a.args[skip:]]
+    if len(call.args) > len(pos):
+        return None
+    for p_, v_ in zip(pos, call.args):
+        bind[p_] = v_
+    ok = True
+    for k in call.keywords:
+        if k.arg not in params or k.arg in bind:
+            ok = False
+        bind[k.arg] = k.value
+    for p_ in params:
+        if p_ not in bind:
+            if p_ in defaults:
+                bind[p_] = defaults[p_]
+            else:
+                ok = False
+    if not ok:
+        return None
+    stored = {x.id for s in body for x in ast.walk(s) if isinstance(x, ast.Name) and not isinstance(x.ctx, ast.Load)} | {x.target.id for s in body for x in ast.walk(s) if isinstance(x, ast.AugAssign) and isinstance(x.target, ast.Name)}
+    caller_names = {x.id for x in ast.walk(g) if isinstance(x, ast.Name)} | {x.arg for x in ast.walk(g) if isinstance(x, ast.arg)}
+    ret_names = []
+    if rets and rets[0].value is not None:
+        rv = rets[0].value
+        ret_names = [e.id for e in (rv.elts if isinstance(rv, ast.Tuple) else [rv]) if isinstance(e, ast.Name)]
+    tgt_names = []
+    if isinstance(st, ast.Assign):
+        t = st.targets[0]
+        tgt_names = [e.id for e in (t.elts if isinstance(t, ast.Tuple) else [t]) if isinstance(e, ast.Name)]
+    rename, pre = {}, []
+    for p_ in params:
+        v_ = bind[p_]
+        pure = isinstance(v_, (ast.Name, ast.Constant)) or (isinstance(v_, (ast.Attribute, ast.Subscript)) and not any(isinstance(x, (ast.Call, ast.BinOp, ast.Compare)) for x in ast.walk(v_)))
+        if pure and p_ not in stored:
+            rename[p_] = v_
+        elif isinstance(v_, ast.Name) and v_.id == p_:
+            pass  # same name on both sides: the helper's re-binding is the caller's re-binding only if returned
+        else:
+            new = p_ if p_ not in caller_names else f"{p_}__{nm}"
+            pre.append(ast.copy_location(ast.Assign(targets=[ast.Name(id=new, ctx=ast.Store())], value=v_), st))
+            if new != p_:
+                rename[p_] = ast.Name(id=new, ctx=ast.Load())
+    for l_ in sorted(stored - set(params)):
+        keep = (l_ in ret_names and l_ in tgt_names and ret_names.index(l_) == tgt_names.index(l_)) or l_ not in caller_names
+        if not keep:
+            rename[l_] = ast.Name(id=f"{l_}__{nm}", ctx=ast.Load())
+
+    class R(ast.NodeTransformer):
+        def visit_Name(self, n_):
+            r_ = rename.get(n_.id)
+            if r_ is None:
+                return n_
+            if isinstance(n_.ctx, ast.Load):
+                return ast.copy_location(_copy.deepcopy(r_), n_)
+            if isinstance(r_, ast.Name):
+                return ast.copy_location(ast.Name(id=r_.id, ctx=n_.ctx), n_)
+            return n_
+
+    new_body = [R().visit(_copy.deepcopy(s)) for s in body]
+    post = []
+    single_tail = len(rets) == 1 and body and body[-1] is rets[0]
+    if rets and not single_tail:
+        if not isinstance(st, ast.Expr) and _has_fallthrough_leaf(body):
+            return None  # a value is expected from a path that returns nothing explicitly
+        # returns in tail position of an if / else tree: each `return E` becomes the call site's statement with E
+        class RT(ast.NodeTransformer):
+            def visit_FunctionDef(self, n_):
+                return n_
+
+            def visit_Lambda(self, n_):
+                return n_
+
+            def visit_Return(self, n_):
+                rv_ = n_.value if n_.value is not None else ast.Constant(value=None)
+                if isinstance(st, ast.Assign):
+                    return ast.copy_location(ast.Assign(targets=_copy.deepcopy(st.targets), value=rv_), n_)
+                if isinstance(st, ast.Return):
+                    return ast.copy_location(ast.Return(value=rv_), n_)
+                if any(isinstance(x, ast.Call) for x in ast.walk(rv_)):
+                    return ast.copy_location(ast.Expr(value=rv_), n_)
+                return ast.copy_location(ast.Pass(), n_)
+
+        new_body = [RT().visit(s) for s in new_body]
+        return pre, new_body, post
+    if rets:
+        new_body = new_body[:-1]
+        rv = R().visit(_copy.deepcopy(rets[0].value)) if rets[0].value is not None else ast.Constant(value=None)
+        if isinstance(st, ast.Assign):
+            if ast.dump(_strip_ctx(st.targets[0])) != ast.dump(_strip_ctx(rv)):
+                post.append(ast.copy_location(ast.Assign(targets=st.targets, value=rv), st))
+        elif isinstance(st, ast.Return):
+            post.append(ast.copy_location(ast.Return(value=rv), st))
+        elif any(isinstance(x, ast.Call) for x in ast.walk(rv)):
+            post.append(ast.copy_location(ast.Expr(value=rv), st))
+    else:
+        if isinstance(st, ast.Assign):
+            post.append(ast.copy_location(ast.Assign(targets=st.targets, value=ast.Constant(value=None)), st))
+        elif isinstance(st, ast.Return):
+            post.append(ast.copy_location(ast.Return(value=None), st))
+    return pre, new_body, post
+
+
 def _inline_helpers(trees):
     """Program-level normal form for extracted helper methods: a method that (a) no rule names (see anchor_names),
     (b) is referenced exactly once in the whole package, by a call `self.h(...)` that is a whole statement
@@ -588,8 +868,9 @@ def _inline_helpers(trees):
                     if any(isinstance(x, (ast.Yield, ast.YieldFrom, ast.FunctionDef, ast.AsyncFunctionDef, ast.ClassDef, ast.Global, ast.Nonlocal, ast.Await)) and x is not h for x in ast.walk(h)):
                         continue
                     body = [s for s in h.body if not (isinstance(s, ast.Expr) and isinstance(s.value, ast.Constant) and isinstance(s.value.value, str))]
-                    rets = [x for x in ast.walk(h) if isinstance(x, ast.Return)]
-                    if len(rets) > 1 or (rets and (not body or body[-1] is not rets[0])):
+                    body = _to_tail_form(body)
+                    rets = [x for s_ in body for x in ast.walk(s_) if isinstance(x, ast.Return)]
+                    if not _returns_in_tail_position(body):
                         continue
                     # the single reference: a whole-statement call in a sibling method
                     site = None
@@ -606,86 +887,10 @@ def _inline_helpers(trees):
                     if site is None:
                         continue
                     g, blk, i, st, call = site
-                    if any(isinstance(x, ast.Starred) for x in call.args) or any(k.arg is None for k in call.keywords):
+                    sub = _substitute_call(h, 1, body, rets, st, call, g, nm)
+                    if sub is None:
                         continue
-                    params = [x.arg for x in a.args[1:]] + [x.arg for x in a.kwonlyargs]
-                    defaults = dict(zip([x.arg for x in a.args[1:]][len(a.args[1:]) - len(a.defaults):], a.defaults))
-                    defaults.update({x.arg: d for x, d in zip(a.kwonlyargs, a.kw_defaults) if d is not None})
-                    bind = {}
-                    pos = [x.arg for x in a.args[1:]]
-                    if len(call.args) > len(pos):
-                        continue
-                    for p_, v_ in zip(pos, call.args):
-                        bind[p_] = v_
-                    ok = True
-                    for k in call.keywords:
-                        if k.arg not in params or k.arg in bind:
-                            ok = False
-                        bind[k.arg] = k.value
-                    for p_ in params:
-                        if p_ not in bind:
-                            if p_ in defaults:
-                                bind[p_] = defaults[p_]
-                            else:
-                                ok = False
-                    if not ok:
-                        continue
-                    stored = {x.id for s in body for x in ast.walk(s) if isinstance(x, ast.Name) and not isinstance(x.ctx, ast.Load)} | {x.target.id for s in body for x in ast.walk(s) if isinstance(x, ast.AugAssign) and isinstance(x.target, ast.Name)}
-                    caller_names = {x.id for x in ast.walk(g) if isinstance(x, ast.Name)} | {x.arg for x in ast.walk(g) if isinstance(x, ast.arg)}
-                    ret_names = []
-                    if rets and rets[0].value is not None:
-                        rv = rets[0].value
-                        ret_names = [e.id for e in (rv.elts if isinstance(rv, ast.Tuple) else [rv]) if isinstance(e, ast.Name)]
-                    tgt_names = []
-                    if isinstance(st, ast.Assign):
-                        t = st.targets[0]
-                        tgt_names = [e.id for e in (t.elts if isinstance(t, ast.Tuple) else [t]) if isinstance(e, ast.Name)]
-                    rename, pre = {}, []
-                    for p_ in params:
-                        v_ = bind[p_]
-                        pure = isinstance(v_, (ast.Name, ast.Constant)) or (isinstance(v_, ast.Attribute) and not any(isinstance(x, ast.Call) for x in ast.walk(v_)))
-                        if pure and p_ not in stored:
-                            rename[p_] = v_
-                        elif isinstance(v_, ast.Name) and v_.id == p_:
-                            pass  # same name on both sides: the helper's re-binding is the caller's re-binding only if returned
-                        else:
-                            new = p_ if p_ not in caller_names else f"{p_}__{nm}"
-                            pre.append(ast.copy_location(ast.Assign(targets=[ast.Name(id=new, ctx=ast.Store())], value=v_), st))
-                            if new != p_:
-                                rename[p_] = ast.Name(id=new, ctx=ast.Load())
-                    for l_ in sorted(stored - set(params)):
-                        keep = (l_ in ret_names and l_ in tgt_names and ret_names.index(l_) == tgt_names.index(l_)) or l_ not in caller_names
-                        if not keep:
-                            rename[l_] = ast.Name(id=f"{l_}__{nm}", ctx=ast.Load())
-
-                    class R(ast.NodeTransformer):
-                        def visit_Name(self, n_):
-                            r_ = rename.get(n_.id)
-                            if r_ is None:
-                                return n_
-                            if isinstance(n_.ctx, ast.Load):
-                                return ast.copy_location(_copy.deepcopy(r_), n_)
-                            if isinstance(r_, ast.Name):
-                                return ast.copy_location(ast.Name(id=r_.id, ctx=n_.ctx), n_)
-                            return n_
-
-                    new_body = [R().visit(_copy.deepcopy(s)) for s in body]
-                    post = []
-                    if rets:
-                        new_body = new_body[:-1]
-                        rv = R().visit(_copy.deepcopy(rets[0].value)) if rets[0].value is not None else ast.Constant(value=None)
-                        if isinstance(st, ast.Assign):
-                            if ast.dump(_strip_ctx(st.targets[0])) != ast.dump(_strip_ctx(rv)):
-                                post.append(ast.copy_location(ast.Assign(targets=st.targets, value=rv), st))
-                        elif isinstance(st, ast.Return):
-                            post.append(ast.copy_location(ast.Return(value=rv), st))
-                        elif any(isinstance(x, ast.Call) for x in ast.walk(rv)):
-                            post.append(ast.copy_location(ast.Expr(value=rv), st))
-                    else:
-                        if isinstance(st, ast.Assign):
-                            post.append(ast.copy_location(ast.Assign(targets=st.targets, value=ast.Constant(value=None)), st))
-                        elif isinstance(st, ast.Return):
-                            post.append(ast.copy_location(ast.Return(value=None), st))
+                    pre, new_body, post = sub
                     blk[i : i + 1] = pre + new_body + post or [ast.copy_location(ast.Pass(), st)]
                     cls_.body.remove(h)
                     ast.fix_missing_locations(tree)
@@ -695,6 +900,138 @@ def _inline_helpers(trees):
                     changed = True
         if not changed:
             return
+
+
+def _inline_module_helpers(trees):
+    """The module-level twin of `_inline_helpers`: a private module-level function no rule names, referenced only as the
+    callee of whole-statement calls (at most 4) inside functions of its own module, without decorators / *args / yield /
+    nested defs and with a single final return, is substituted at each call site and removed."""
+    anchors = anchor_names()
+    for _round in range(4):
+        changed = False
+        name_refs = {}
+        for tree in trees:
+            for n in ast.walk(tree):
+                if isinstance(n, ast.Name):
+                    name_refs[n.id] = name_refs.get(n.id, 0) + 1
+                elif isinstance(n, ast.Attribute):
+                    name_refs[n.attr] = name_refs.get(n.attr, 0) + 1
+                elif isinstance(n, ast.alias):
+                    name_refs[n.name.split(".")[-1]] = name_refs.get(n.name.split(".")[-1], 0) + 1
+                    if n.asname:
+                        name_refs[n.asname] = name_refs.get(n.asname, 0) + 1
+                elif isinstance(n, ast.Constant) and isinstance(n.value, str) and n.value.isidentifier():
+                    name_refs[n.value] = name_refs.get(n.value, 0) + 1
+        for tree in trees:
+            for h in [f for f in tree.body if isinstance(f, ast.FunctionDef)]:
+                nm = h.name
+                if nm in anchors or not nm.startswith("_") or nm.startswith("__") or h.decorator_list:
+                    continue
+                a = h.args
+                if a.vararg or a.kwarg or a.posonlyargs:
+                    continue
+                if any(isinstance(x, (ast.Yield, ast.YieldFrom, ast.FunctionDef, ast.AsyncFunctionDef, ast.ClassDef, ast.Global, ast.Nonlocal, ast.Await)) and x is not h for x in ast.walk(h)):
+                    continue
+                if any(isinstance(x, ast.Name) and x.id == nm for x in ast.walk(h)):
+                    continue  # recursive
+                body = [s for s in h.body if not (isinstance(s, ast.Expr) and isinstance(s.value, ast.Constant) and isinstance(s.value.value, str))]
+                body = _to_tail_form(body)
+                rets = [x for s_ in body for x in ast.walk(s_) if isinstance(x, ast.Return)]
+                if not _returns_in_tail_position(body):
+                    continue
+                # call sites: in the defining module and in modules that import the name (`from .m import _h`)
+                defs_of_name = sum(1 for t2 in trees for f2 in ast.walk(t2) if isinstance(f2, (ast.FunctionDef, ast.AsyncFunctionDef, ast.ClassDef)) and f2.name == nm)
+                if defs_of_name != 1:
+                    continue
+                importers = [t2 for t2 in trees if t2 is not tree and any(isinstance(s_, ast.ImportFrom) and any(al.name == nm and al.asname is None for al in s_.names) for s_ in t2.body)]
+                n_import_refs = sum(1 for t2 in importers for s_ in t2.body if isinstance(s_, ast.ImportFrom) for al in s_.names if al.name == nm)
+                free = {x.id for s_ in body for x in ast.walk(s_) if isinstance(x, ast.Name) and isinstance(x.ctx, ast.Load)} - {x.arg for x in a.args + a.kwonlyargs} - {x.id for s_ in body for x in ast.walk(s_) if isinstance(x, ast.Name) and not isinstance(x.ctx, ast.Load)}
+                import builtins as _bi
+
+                def top_names(t2):
+                    out = set()
+                    for s_ in t2.body:
+                        if isinstance(s_, (ast.FunctionDef, ast.AsyncFunctionDef, ast.ClassDef)):
+                            out.add(s_.name)
+                        elif isinstance(s_, (ast.Import, ast.ImportFrom)):
+                            out |= {(al.asname or al.name).split(".")[0] for al in s_.names}
+                        elif isinstance(s_, ast.Assign):
+                            out |= {x.id for tg in s_.targets for x in ast.walk(tg) if isinstance(x, ast.Name)}
+                    return out
+
+                if any(not (free - set(dir(_bi))) <= top_names(t2) for t2 in importers):
+                    continue
+                sites = []
+                for t2 in [tree] + importers:
+                    for g in [f for f in ast.walk(t2) if isinstance(f, ast.FunctionDef) and f is not h]:
+                        for owner in ast.walk(g):
+                            if isinstance(owner, (ast.FunctionDef, ast.AsyncFunctionDef)) and owner is not g:
+                                continue
+                            for fld in ("body", "orelse", "finalbody"):
+                                blk = getattr(owner, fld, None)
+                                if not (isinstance(blk, list) and blk and isinstance(blk[0], ast.stmt)):
+                                    continue
+                                for st in blk:
+                                    call = st.value if isinstance(st, (ast.Expr, ast.Return)) else (st.value if isinstance(st, ast.Assign) and len(st.targets) == 1 else None)
+                                    if isinstance(call, ast.Call) and isinstance(call.func, ast.Name) and call.func.id == nm and not any(s_[3] is st for s_ in sites):
+                                        sites.append((g, blk, call, st))
+                if not sites or len(sites) > 6 or name_refs.get(nm, 0) != len(sites) + n_import_refs:
+                    continue
+                subs = [_substitute_call(h, 0, body, rets, st, call, g, nm) for g, blk, call, st in sites]
+                if any(s_ is None for s_ in subs):
+                    continue
+                for (g, blk, call, st), (pre, new_body, post) in zip(sites, subs):
+                    i = next(k for k, x in enumerate(blk) if x is st)
+                    blk[i : i + 1] = pre + new_body + post or [ast.copy_location(ast.Pass(), st)]
+                for t2 in importers:
+                    for s_ in list(t2.body):
+                        if isinstance(s_, ast.ImportFrom) and any(al.name == nm for al in s_.names):
+                            s_.names = [al for al in s_.names if al.name != nm]
+                            if not s_.names:
+                                t2.body.remove(s_)
+                    ast.fix_missing_locations(t2)
+                tree.body.remove(h)
+                ast.fix_missing_locations(tree)
+                changed = True
+        if not changed:
+            return
+
+
+def _flatten_mixins(trees):
+    """A private helper base class (name starts with `_`, no rule names it, no bases of its own beyond object / ABC,
+    no `__init__`, used as a base by exactly one class of the package and referenced nowhere else) is merged into that
+    class: its methods are defined on the subclass (unless overridden there).  Moving methods into `_XMixin` and back
+    is then invisible to every rule."""
+    anchors = anchor_names()
+    classes = [(t, c) for t in trees for c in t.body if isinstance(c, ast.ClassDef)]
+    refs = {}
+    for t in trees:
+        for n in ast.walk(t):
+            if isinstance(n, ast.Name):
+                refs[n.id] = refs.get(n.id, 0) + 1
+            elif isinstance(n, ast.Attribute):
+                refs[n.attr] = refs.get(n.attr, 0) + 1
+            elif isinstance(n, ast.alias):
+                refs[(n.asname or n.name).split(".")[-1]] = refs.get((n.asname or n.name).split(".")[-1], 0) + 1
+    for t, m in classes:
+        if not m.name.startswith("_") or m.name in anchors or m.decorator_list or m.keywords:
+            continue
+        if any(not (isinstance(b, ast.Name) and b.id in ("object", "ABC")) and not (isinstance(b, ast.Attribute) and b.attr == "ABC") for b in m.bases):
+            continue
+        if any(isinstance(f, ast.FunctionDef) and f.name in ("__init__", "__new__", "__init_subclass__") for f in m.body):
+            continue
+        users = [(t2, c) for t2, c in classes if any(isinstance(b, ast.Name) and b.id == m.name for b in c.bases)]
+        if len(users) != 1 or refs.get(m.name, 0) != 1 or users[0][0] is not t:
+            continue
+        sub = users[0][1]
+        own = {f.name for f in sub.body if isinstance(f, (ast.FunctionDef, ast.AsyncFunctionDef))} | {tg.id for s in sub.body if isinstance(s, ast.Assign) for tg in s.targets if isinstance(tg, ast.Name)}
+        moved = [s for s in m.body if not (isinstance(s, ast.Expr) and isinstance(s.value, ast.Constant)) and not isinstance(s, ast.Pass) and not (isinstance(s, (ast.FunctionDef, ast.AsyncFunctionDef)) and s.name in own)]
+        if any(isinstance(x, ast.Call) and isinstance(x.func, ast.Name) and x.func.id == "super" for s in moved for x in ast.walk(s)):
+            continue
+        sub.body.extend(moved)
+        sub.bases = [b for b in sub.bases if not (isinstance(b, ast.Name) and b.id == m.name)]
+        t.body.remove(m)
+        ast.fix_missing_locations(t)
 
 
 def _ancestors(name, class_defs, _seen=None):
@@ -741,6 +1078,9 @@ class Program:
         self._attr_cache: Dict[ClassInfo, Dict[str, List[str]]] = {}
         self._load()
         self._link()
+        from .canon import set_signatures
+
+        set_signatures(self)
 
     # ------------------------------------------------------------------
     def _load(self):
@@ -772,13 +1112,18 @@ class Program:
                     _strip_logging(tree)
                 parsed.append((modname, path, rel, source, tree, is_pkg))
         if self.inline_helpers:
+            _flatten_mixins([t[4] for t in parsed])
             _inline_helpers([t[4] for t in parsed])
+            _inline_module_helpers([t[4] for t in parsed])
         for modname, path, rel, source, tree, is_pkg in parsed:
             _normalise_syntax(tree)
             if self.propagate_aliases:
                 _propagate_aliases(tree)
             if self.inline_temps:
                 _inline_temps(tree)
+                if os.environ.get("SA_NO_PURE_TEMPS") != "1":
+                    _propagate_pure_temps(tree)
+                    _normalise_syntax(tree)
             m = ModuleInfo(modname, path, rel, source, tree, is_pkg)
             self.modules[modname] = m
             self._index_module(m)
